@@ -664,7 +664,7 @@ def o5_exit_code(chk: Check) -> None:
             chk.violation("C05.O5", ies, "engine exception => FatalError", "an exception escaping the engine is not converted into a FatalError event", ies.loc(yf[0]))
         else:
             h = next(h for h in t.handlers if shared.catches_all_exceptions(h))
-            chk.decide("FatalError" in shared.event_ctor_names(h) or any(last_attr(c) == "FatalError" for c in calls(h)), "C05.O5", ies, "engine exception => FatalError", "the catch-all around the engine yields no FatalError", ies.loc(h))
+            chk.expect("FatalError" in shared.event_ctor_names(h) or any(last_attr(c) == "FatalError" for c in calls(h)), "C05.O5", ies, "engine exception => FatalError", "the catch-all around the engine yields no FatalError", ies.loc(h))
     else:
         chk.undecided("C05.O5", ies, "engine exception => FatalError", "engine execute() call not found", ies.loc())
 
